@@ -6,7 +6,7 @@ Real code under the tracer: send -> ... -> _activate (result = before results + 
 Solver-enumerated structure: how the before and on groups are populated (none / generic / event-specific
 convention / inline / all) on which providers, pre-state, event (incl. the second id of multi-event transitions,
 internal and self transitions, a rejected first candidate), and which one callback invocation returns a value of
-which awkward kind (None, [], [x], (), {}, "").  Solver variables: every other returned value (ints incl. 0) -
+which awkward kind (None, [], [x], (), {}, "", an exception instance).  Solver variables: every other returned value (ints incl. 0) -
 also the junk returned by validators, exit, enter and after callbacks, which must never surface.
 """
 
@@ -57,7 +57,7 @@ BUDGET = {
 BOUNDS = {
     "quick": "T-actions template (C02); before and on groups populated {none, event-specific convention, all styles} independently; exit/enter/after "
     "present (generic) and returning junk; providers {machine} / {machine, model, listener}; every pre-state x event {go, hop, tick, jump}; "
-    "a variant with a listener that has only generic callbacks attached after construction; one invocation (any of the first 4 value-returning ones, or none) returns one of None, [], [x], (), {}, ''; all other values symbolic ints in [-3,3]; a hand-written machine whose before / on callbacks are given as the names of other events (rtc False and True; with and without a convention on_<event> next to them; the nested event returning None or a symbolic int).",
+    "a variant with a listener that has only generic callbacks attached after construction; one invocation (any of the first 4 value-returning ones, or none) returns one of None, [], [x], (), {}, '', an exception instance (returned, not raised); all other values symbolic ints in [-3,3]; a hand-written machine whose before / on callbacks are given as the names of other events (rtc False and True; with and without a convention on_<event> next to them; the nested event returning None or a symbolic int).",
     "thorough": "modes {none, generic, specific, inline, all}, provider mixes incl. listener-only and two listeners, also rtc=False.",
 }
 OUTSIDE = "more than one awkward value per event; values of other types (floats, objects); nested events (C03)"
@@ -174,6 +174,8 @@ def run(ctx, params):
         r = render(am, box, class_name="C14M")
         script = Script(ctx, am, budget=0, values="special")
         box[0] = script
+        if r["model_cls"] is not None:
+            r["model_cls"].__len__ = lambda self: 0  # a falsy model (an empty container) is still the model whose callbacks count
         model = r["model_cls"]() if r["model_cls"] else None
         listeners = [c() for c in r["listener_classes"]]
         script.muted = True
